@@ -227,6 +227,51 @@ fn screen_c15(ctx: &mut Ctx) {
     let n = ctx.q(60_000, 3_000_000);
     let keep = ctx.q(150, 1500);
     let p = |v: u64| f64::from(softposit::P32E2::from_bits(v as u32));
+    // unary functions: a seeded coset of 2^27 of all 2^32 argument patterns (thorough: every pattern), on all cores; the
+    // `keep` arguments whose result is furthest from the f64 value are judged
+    let l2 = ctx.q(27, 32) as u32;
+    for f in F32U.iter().take(13).copied() {
+        type U = fn(softposit::P32E2) -> softposit::P32E2;
+        let imp: U = match f {
+            "sin" => |x| x.sin(), "cos" => |x| x.cos(), "tan" => |x| x.tan(), "asin" => |x| x.asin(), "acos" => |x| x.acos(),
+            "atan" => |x| x.atan(), "ln" => |x| x.ln(), "log2" => |x| x.log2(), "exp" => |x| x.exp(), "exp2" => |x| x.exp2(),
+            "sinh" => |x| x.sinh(), "cosh" => |x| x.cosh(), _ => |x| x.cbrt(),
+        };
+        let stride = 1u64 << (32 - l2);
+        let off = ctx.seed.wrapping_mul(0xC2B2_AE3D_27D4_EB4F).wrapping_add(f.len() as u64 * 7919) % stride;
+        crate::guard::set_current(f, "p32", "sweep", 32, &[off, stride]);
+        let (cnt, top) = crate::screen::par_top(1u64 << 32, stride, off, keep, |a| {
+            if a == 0 || a == 0x8000_0000 {
+                return None;
+            }
+            let x = f64::from(softposit::P32E2::from_bits(a as u32));
+            // the documented domains (outside them nothing is demanded of the value)
+            let ok = match f {
+                "sin" | "cos" | "tan" => x.abs() < 393216.0,
+                "exp" => x.abs() <= 104.0,
+                "exp2" => x >= -150.0 && x < 128.0,
+                "sinh" | "cosh" => x.abs() <= 88.0,
+                _ => true,
+            };
+            if !ok {
+                return None;
+            }
+            let want = f64_ref(f, x, 0.0);
+            if !want.is_finite() {
+                return None;
+            }
+            let got = imp(softposit::P32E2::from_bits(a as u32)).to_bits();
+            if got == 0x8000_0000 {
+                return Some(i64::MAX - 1); // NaR for an argument with a real result
+            }
+            let w = softposit::P32E2::from_f64(want).to_bits();
+            Some(((got as i32) as i64 - (w as i32) as i64).abs())
+        });
+        ctx.sink.screened += cnt;
+        for &(_, a) in &top {
+            ctx.call(ty, f, "m", &[a]);
+        }
+    }
     for f in F32U.iter().take(13).copied().chain(["hypot", "powf", "atan2"]) {
         let two = matches!(f, "hypot" | "powf" | "atan2");
         let mut worst: Vec<(i64, u64, u64)> = Vec::new();
@@ -340,5 +385,57 @@ pub fn screen_hist(op: &str, n: usize, lo: i32, hi: i32, seed: u64) {
     }
     for (d, (c, a, b)) in hist {
         println!("d={d} count={c} e.g. a={a:#x} b={b:#x}");
+    }
+}
+
+/// tuning aid (not a check): histogram of pattern distances from the f64 value over a coset of ALL P32E2 arguments
+pub fn sweep_hist(op: &'static str, log2n: u32, seed: u64) {
+    type U = fn(softposit::P32E2) -> softposit::P32E2;
+    let imp: U = match op {
+        "sin" => |x| x.sin(), "cos" => |x| x.cos(), "tan" => |x| x.tan(), "asin" => |x| x.asin(), "acos" => |x| x.acos(),
+        "atan" => |x| x.atan(), "ln" => |x| x.ln(), "log2" => |x| x.log2(), "exp" => |x| x.exp(), "exp2" => |x| x.exp2(),
+        "sinh" => |x| x.sinh(), "cosh" => |x| x.cosh(), _ => |x| x.cbrt(),
+    };
+    let stride = 1u64 << (32 - log2n);
+    let off = seed % stride;
+    let hist = std::sync::Mutex::new(std::collections::BTreeMap::<i64, (u64, u64)>::new());
+    let nthreads = 16u64;
+    std::thread::scope(|sc| {
+        for t in 0..nthreads {
+            let hist = &hist;
+            sc.spawn(move || {
+                let mut local = std::collections::BTreeMap::<i64, (u64, u64)>::new();
+                let mut a = off + t * stride;
+                while a < (1u64 << 32) {
+                    if a != 0 && a != 0x8000_0000 {
+                        let x = f64::from(softposit::P32E2::from_bits(a as u32));
+                        let ok = match op {
+                            "sin" | "cos" | "tan" => x.abs() < 393216.0,
+                            "exp" => x.abs() <= 104.0,
+                            "exp2" => x >= -150.0 && x < 128.0,
+                            "sinh" | "cosh" => x.abs() <= 88.0,
+                            _ => true,
+                        };
+                        let want = f64_ref(op, x, 0.0);
+                        if ok && want.is_finite() {
+                            let got = imp(softposit::P32E2::from_bits(a as u32)).to_bits();
+                            let w = softposit::P32E2::from_f64(want).to_bits();
+                            let d = if got == 0x8000_0000 { 1_000_000 } else { ((got as i32) as i64 - (w as i32) as i64).abs().min(1000) };
+                            let e = local.entry(d).or_insert((0, a));
+                            e.0 += 1;
+                        }
+                    }
+                    a += stride * nthreads;
+                }
+                let mut h = hist.lock().unwrap();
+                for (d, (c, a)) in local {
+                    let e = h.entry(d).or_insert((0, a));
+                    e.0 += c;
+                }
+            });
+        }
+    });
+    for (d, (c, a)) in hist.lock().unwrap().iter() {
+        println!("{op} d={d} count={c} e.g. a={a:#x}");
     }
 }
